@@ -68,7 +68,7 @@ P = {
     "gen": {"module": "Gen_RTable", "cfg": "Gen_cover.cfg", "thorough_cfg": "Gen_cover5.cfg", "workers": 1, "timeout": 400, "thorough_timeout": 1500},
     "driver": {"cmd": "rtable"},
     "n_random": (60, 600),
-    "trace": {"module": "T_RTable", "cfg": "T_RTable.cfg", "timeout": 900, "heap": "4g"},
+    "trace": {"module": "T_RTable", "cfg": "T_RTable.cfg", "timeout": 900, "heap": "4g", "rerun_attempts": 3},
     "chunk": 60000,
     "signature": signature,
     "nontrivial": nontrivial,
@@ -180,23 +180,38 @@ def selftest(ctx):
                     return evs[:i + 3] + [evs[j]] + evs[j + 1:]
 
     def rewrite_unchanged(evs):
-        # a write that claims to have touched a known, unchanged, non-empty Felix chain
-        seen_ok_end = {}
+        # a write made with fresh knowledge claims to have touched a referenced, non-empty Felix chain whose content
+        # is the one that an earlier converged Apply left and that is still desired
+        def last_kernel(i):
+            for k in range(i, -1, -1):
+                if "kernel" in evs[k]:
+                    return evs[k]["kernel"]
+            return None
+
+        good = None          # kernel at the end of the last clean successful Apply of this trace
+        clean = False
         for i, e in enumerate(evs):
-            if e["ev"] == "apply_end" and e["ok"]:
-                seen_ok_end[e["t"]] = i
-            if e["ev"] == "write" and e["ok"] and e["t"] in seen_ok_end:
-                prev = None
-                for k in range(i - 1, -1, -1):
-                    if "kernel" in evs[k]:
-                        prev = evs[k]["kernel"]
-                        break
-                if prev is None or evs[i - 1]["ev"] != "read" and evs[i - 1]["ev"] != "apply_begin":
-                    continue
-                for c, rs in e["kernel"].items():
-                    if c.startswith("cali-") and rs and prev.get(c) == rs and c not in e["touched"]:
+            ev = e["ev"]
+            if ev == "reset" or ev in ("edit", "restart"):
+                good = None
+            if ev == "apply_begin":
+                clean = True
+                saw_read = False
+            if ev == "read":
+                saw_read = e["ok"]
+                clean = clean and e["ok"]
+            if ev == "write" and not e["ok"]:
+                clean = False
+            if ev == "write" and e["ok"] and clean and good is not None and evs[i - 1]["ev"] == "read" and evs[i - 1]["ok"]:
+                prev = last_kernel(i - 1)
+                for c, rs in sorted(e["kernel"].items()):
+                    referenced = any(r["tgt"] == c for k2, rs2 in e["kernel"].items() if not k2.startswith("cali-") for r in rs2)
+                    if c.startswith("cali-") and rs and prev and prev.get(c) == rs and good.get(c) == rs \
+                            and c not in e["touched"] and referenced:
                         e["touched"] = sorted(e["touched"] + [c])
                         return evs
+            if ev == "apply_end":
+                good = last_kernel(i) if (e["ok"] and clean and saw_read) else None
 
     def deep(fn):
         # corruption_selftest hands out shallow copies; the corruptions edit nested kernel objects
